@@ -259,8 +259,9 @@ def world_assembly(b):
     mfn = MethodFn(c, node)
     b.functions[mfn.key] = mfn.info()
     for nlayers in (1, 2, 3):
-        for mass_given in (False, True):
-            tag = f"{mfn.key}::assembly[layers={nlayers};mass_{'given' if mass_given else 'derived'}]"
+        for mass_given, from_state in ((False, False), (True, False), (True, True)):
+            # from_state: reinit(pull_geo_from_config=False) - radius and mass are the world's current state, not the configuration's
+            tag = f"{mfn.key}::assembly[layers={nlayers};mass_{'given' if mass_given else 'derived'}{';from_state' if from_state else ''}]"
             calls, layers = [], []
             for k in range(nlayers):
                 def mk_reinit(k_):
@@ -284,10 +285,13 @@ def world_assembly(b):
                 calls.append(("super.reinit", a, dict(kw)))
             o = Obj(cls, config=cfg, _config=cfg, layers=tuple(layers), _layers=tuple(layers), tides_on=False, pressure_above=R("p_above"),
                     set_geometry=set_geo, set_static_pressure=set_pressure)
+            if from_state:
+                o._attrs["_radius"], o._attrs["_mass"] = R("state_radius"), R("state_mass")
+                Rw, Mw = R("state_radius"), R("state_mass")
             npns = Namespace("np", dict(concatenate=lambda ex, node_, seq, *a, **k: [x_ for part in seq for x_ in part], pi=T.PI))
             ex = Exec(mfn, contracts={"=super.reinit": Contract("=super.reinit", None, None, result=super_reinit)}, globals_env=dict(np=npns))
             try:
-                paths = ex.run(dict(self=o, initial_init=True, setup_simple_tides=False, reinit_layers=True))
+                paths = ex.run(dict(self=o, initial_init=not from_state, setup_simple_tides=False, reinit_layers=True, **({"pull_geo_from_config": False} if from_state else {})))
             except SymExError as e:
                 b.subset_exits.append(f"{mfn.key} [layers={nlayers}]: {e}")
                 return
